@@ -104,7 +104,7 @@ def driver_tasks(repo):
             fn = call_name(n.args[0])
             m = repo.method(MAN, fn, required=False)
             if m is not None:
-                drivers.append((m, repo.try_fold(n.args[2]) if len(n.args) > 2 else None))
+                drivers.append((m, repo.try_fold(n.args[2], aenter.mod, aenter.cls) if len(n.args) > 2 else None))
     return drivers
 
 
@@ -126,10 +126,10 @@ def check(ctx):
     heads = [h for h in loop_heads(g) if h.kind == "test" and h.const_true]
     ctx.ob("R1", "driver::unconditional-loop", len(heads) == 1, f"{pump.qual} is not a single `while True` loop", pump.loc)
     aexit = repo.method(MAN, "__aexit__")
-    ok = any(isinstance(n, ast.Call) and call_name(n) == "cancel_key_tasks" and n.args and repo.try_fold(n.args[0]) == key for n in ast.walk(aexit.node))
+    ok = any(isinstance(n, ast.Call) and call_name(n) == "cancel_key_tasks" and n.args and repo.try_fold(n.args[0], aexit.mod, aexit.cls) == key for n in ast.walk(aexit.node))
     ctx.ob("R1", "driver::cancelled-only-on-exit", ok, f"{MAN}.__aexit__ does not cancel the driver's key {key!r}", aexit.loc)
     others = [f.qual for f in repo.all_functions() if f.qual != aexit.qual and any(
-        isinstance(n, ast.Call) and call_name(n) == "cancel_key_tasks" and n.args and repo.try_fold(n.args[0]) == key for n in ast.walk(f.node))]
+        isinstance(n, ast.Call) and call_name(n) == "cancel_key_tasks" and n.args and repo.try_fold(n.args[0], f.mod, f.cls) == key for n in ast.walk(f.node))]
     ctx.ob("R1", "driver::not-cancelled-elsewhere", not others, f"the driver's tasks are also cancelled in {others} (e.g. by reset): reconnection would stop", pump.loc)
     # no OTHER domain's cancel can hit the driver task (registry interpreted, vlib/taskmodel.py)
     from ..taskmodel import check_registry
